@@ -143,3 +143,22 @@ def c09(work, tier, seed, replay):
         "the measured quantity (bytes allocated / retained by the real decoder) is outside TLA+; the specification contributes the cost semantics, the bounds "
         "(constants >= 4x the worst correct measurement) and the witness shapes; there is no adversarial search",
         "a decode that does not finish within 25 s in its child process counts as exceeding every bound"])
+
+
+def ext(work, tier, seed):
+    """./check ext — extended conformance beyond the twenty properties (spec/Extract.tla). Never a VIOLATION."""
+    from .props_v4 import validate
+    vh = common.build_vh(work)
+    tr, stats = common.vh_gen(work, vh, "ext", seed, tier)
+    viol, tstates, n = validate(work, "Trace_Ext", tr, stats, procs=6)
+    for desc, _ in viol[:20]:
+        common.log("EXTENDED-MISMATCH " + desc[:500])
+    cov = dict(states=tstates, transitions=tstates, traces_validated_against_impl=n, evaluations=stats["lines"], distinct=stats["distinct"],
+               distinct_nontrivial=stats["distinct_nontrivial"], classes=stats["classes"], mismatches=len(viol),
+               samples=[common.trim_sample(s) for s in stats["samples"][:3]],
+               rule="netboot.GetNetConfFromPacketv6/v4, dhcpv6.ExtractMAC, the DHCPv6 option-container accessors (DNS, search list, boot file URL, "
+                    "merged ORO, NTP servers, IsNetboot, IsOptionRequested) and dhcpv4 IsOptionRequested on generated messages with several "
+                    "instances of the relevant options; results compared with the operators of spec/Extract.tla")
+    common.write_evidence("EXT", tier, seed, cov, 0, 0, ["extended conformance: informational, not part of any property's verdict"])
+    common.log("EXT lines=%d mismatches=%d" % (n, len(viol)))
+    return 0
